@@ -18,7 +18,10 @@ package main
 //    hint = the implementation's decision (0/1) where binary64 arithmetic of the configuration can round on an
 //    exact tie, 2 = none (the model decides exactly); lat = the value LatencyAtQuantileMS(q) of every latency
 //    atom at the moment of the check, read from an RTMetrics fed with the same records at the same instants.
-// Monitors (independent of the Coq model): C05, C12, C18 — see the comments at each.
+// Monitors (independent of the Coq model): C05, C12, C18 — see the comments at each. For C18 the decision is
+// recomputed from the harness's own log; for latency atoms additionally (a) the oracle value must not exceed what the
+// latencies recorded since the last trip explain, (b) a trip must be possible with latency quantiles bounded that way —
+// (b) uses no memmetrics code at all, so stale latencies surviving a trip are flagged whatever the oracle says.
 
 import (
 	"context"
@@ -249,6 +252,36 @@ func (e *ex) evalMon(log []rec, now int64, lats []int64) (val bool, tie bool) {
 	return val, c == 0
 }
 
+// possible over-approximates the condition when all that is known about a latency quantile is that it lies in
+// [0, bound] ms (bound = what the latencies recorded since the last trip can explain): if possible is false the
+// condition cannot be true, whatever the histogram library does. Ratios are evaluated exactly on the own log.
+func (e *ex) possible(log []rec, now int64, bound int64) bool {
+	switch e.kind {
+	case 0:
+		return e.x.possible(log, now, bound) && e.y.possible(log, now, bound)
+	case 1:
+		return e.x.possible(log, now, bound) || e.y.possible(log, now, bound)
+	}
+	if e.metric != 2 {
+		v, _ := e.evalMon(log, now, nil)
+		return v
+	}
+	switch e.op { // exists v in [0, bound] with v op tn
+	case 0:
+		return 0 < e.tn
+	case 1:
+		return 0 <= e.tn
+	case 2:
+		return bound > e.tn
+	case 3:
+		return bound >= e.tn
+	case 4:
+		return 0 <= e.tn && e.tn <= bound
+	default:
+		return !(bound == 0 && e.tn == 0)
+	}
+}
+
 // ---------------------------------------------------------------------------------- runner
 
 type effect struct{ n int64 }
@@ -425,6 +458,7 @@ func (c *cbComp) Run(h *hlib.History) ([]hlib.Mon, bool) {
 	inRec, recStart := false, int64(0)     // C12: current recovery period
 	var recA, recN int64                   // passed / total arrivals since recovery began
 	var log []rec                          // C18: records since the last observed trip
+	maxLat := int64(-1)                    // C18: largest latency (ns) recorded since the last observed trip, -1 = none
 	checked, nextCheck := false, int64(0)  // C18: a check was performed; no further check up to and including nextCheck
 	var expT, expS int64                   // C18: transitions into tripped / standby observed so far
 	dyadic := isPow2(recD)
@@ -579,6 +613,20 @@ func (c *cbComp) Run(h *hlib.History) ([]hlib.Mon, bool) {
 
 			// C18: the decision recomputed from the monitor's own log
 			log = append(log, rec{now, code})
+			if lat := now - rq.start; lat > maxLat { // (latencies beyond the histogram's range are dropped by it: still an upper bound)
+				maxLat = lat
+			}
+			// what a latency quantile (ms) may be at most, given only the latencies recorded since the last trip:
+			// the largest of them, plus the histogram's 1 % bucket width, plus 1 ms; 0 if there is none
+			latBound := int64(0)
+			if maxLat >= 0 {
+				latBound = (maxLat+maxLat/100)/1000000 + 1
+			}
+			for i, v := range lats {
+				if v < 0 || v > latBound {
+					mon("C18", step, "latency oracle: LatencyAtQuantileMS(%d.%d) = %d ms, but the largest latency recorded since the last trip is %d ns", latAtoms[i].q/10, latAtoms[i].q%10, v, maxLat)
+				}
+			}
 			due := !checked || now > nextCheck
 			if due {
 				checked, nextCheck = true, now+cp
@@ -596,6 +644,13 @@ func (c *cbComp) Run(h *hlib.History) ([]hlib.Mon, bool) {
 				if want != tripped {
 					mon("C18", step, "check of %q on %d records: condition is %v, breaker tripped=%v", exprStr, len(log), want, tripped)
 				}
+				// independent of the histogram library: a trip must be explainable by the responses since the last trip
+				if len(latAtoms) > 0 {
+					hlib.Count("latency_condition_evaluations", 1)
+					if tripped && !e.possible(log, now, latBound) {
+						mon("C18", step, "tripped on %q although the %d responses since the last trip (largest latency %d ns) cannot make it true: stale latencies", exprStr, len(log), maxLat)
+					}
+				}
 			} else if tripped {
 				mon("C18", step, "tripped without a due check (due=%v, state before %d)", due, prev)
 			}
@@ -605,12 +660,14 @@ func (c *cbComp) Run(h *hlib.History) ([]hlib.Mon, bool) {
 			if tripped {
 				expT++
 				log = nil
-				// a brand-new metrics object, not Reset(): the oracle must not inherit a faulty reset
+				maxLat = -1
+				// a brand-new metrics object, so that the oracle cannot inherit a faulty reset; Reset() on the still empty
+				// object only aligns its rotation schedule with the breaker's metrics (index 0, last roll = now: a new
+				// RollingHDRHistogram has a zero last roll and would rotate at its first record)
 				if fresh, ferr := memmetrics.NewRTMetrics(); ferr == nil {
 					shadow = fresh
-				} else {
-					shadow.Reset()
 				}
+				shadow.Reset()
 				shieldOn, shieldEnd = true, now+fb
 				inRec = false
 			}
@@ -667,7 +724,140 @@ func genExpr(rng *rand.Rand, depth int, nlat *int64) *ex {
 	return e
 }
 
+// genStale: a latency(-dominated) condition, 70-130 s of responses with varied latencies in >= 7 ten-second
+// periods (slow ones early and in the middle, so that the 6 x 10 s rolling histogram has wrapped around and holds slow
+// latencies in buckets above its current index), a trip, short fallback and recovery, then fast responses at due
+// checks: a trip now could only come from latencies recorded before the last trip.
+func genStale(rng *rand.Rand) hlib.History {
+	var h hlib.History
+	t0 := int64(1600000000)*second + rng.Int63n(20*second)
+	fb := hlib.Pick(rng, second, second, 2*second, 3*second, 5*second, 1<<30)
+	recD := hlib.Pick(rng, 1<<30, 1<<30, 1<<31, 1<<32, second, 2*second, 5*second)
+	cp := hlib.Pick(rng, 0, 1000000, 1000000, 100000000)
+	x := hlib.Pick(rng, 50, 100, 100, 200, 500) // threshold, ms
+	ms := int64(1000000)
+	fast := func() int64 { return (1 + rng.Int63n(x/4)) * ms }
+	slow := func() int64 { return (2*x + rng.Int63n(8*x)) * ms }
+	lat := &ex{kind: 2, op: hlib.Pick(rng, 2, 2, 3), metric: 2, k: 0, tn: x, td: 1}
+	gated := rng.Intn(2) == 0
+	var e *ex
+	if gated {
+		// the latency atom decides, an error-ratio atom gates the moment of the trip
+		lat.q = hlib.Pick(rng, 500, 900, 990, 999, 1000)
+		var g *ex
+		if rng.Intn(2) == 0 {
+			g = &ex{kind: 2, op: hlib.Pick(rng, 2, 3), metric: 0, tn: hlib.Pick(rng, 4000, 5000), td: 10000}
+		} else {
+			g = &ex{kind: 2, op: 3, metric: 1, a: 500, b: 600, c: 0, d: 600, tn: 5000, td: 10000}
+		}
+		if rng.Intn(2) == 0 {
+			e = &ex{kind: 0, x: lat, y: g}
+		} else {
+			e = &ex{kind: 0, x: g, y: lat}
+		}
+	} else {
+		lat.q = 500
+		e = lat
+		if rng.Intn(3) == 0 { // || something that never holds
+			e = &ex{kind: 1, x: lat, y: &ex{kind: 2, op: 2, metric: 0, tn: 15000, td: 10000}}
+		}
+	}
+	h.Cfg = append([]int64{t0, fb, recD, cp}, e.encode(nil)...)
+
+	inflight := int64(0)
+	elapsed := int64(0)
+	tick := func(d int64) {
+		if d > 0 {
+			h.Ops = append(h.Ops, []int64{2, d})
+			elapsed += d
+		}
+	}
+	// one request of the given latency, completed with the given code (the newest in flight)
+	request := func(l, code int64) {
+		h.Ops = append(h.Ops, []int64{0, 2})
+		inflight++
+		tick(l)
+		h.Ops = append(h.Ops, []int64{1, inflight - 1, code, 2})
+		inflight--
+	}
+	okCode := func() int64 { return hlib.Pick(rng, 200, 200, 201, 204, 404) }
+	errCode := func() int64 { return hlib.Pick(rng, 502, 504) }
+	if rng.Intn(3) == 0 { // a request that stays in flight over the whole history
+		h.Ops = append(h.Ops, []int64{0, 2})
+		inflight++
+	}
+	periods := int(hlib.Pick(rng, 7, 7, 7, 8, 8, 9, 12, 13, 13)) // the trip falls into period `periods`: index periods mod 6
+	for p := 0; p < periods; p++ {
+		start := elapsed
+		var nf, ns int
+		switch {
+		case gated: // slow ones anywhere: without errors the condition stays false
+			nf, ns = rng.Intn(3), rng.Intn(3)
+			if p >= periods-5 && p < periods-1 && ns == 0 {
+				ns = 1
+			}
+			if nf+ns == 0 {
+				nf = 1
+			}
+		case p < periods-5: // pure median condition: fast-heavy while the old periods are still in the window ...
+			nf, ns = 5+rng.Intn(2), rng.Intn(2)
+		case p < periods-1: // ... slow-heavy in the periods that will sit above the index at the trip
+			nf, ns = 1, 2
+		default:
+			nf, ns = 0, 1
+		}
+		for nf+ns > 0 {
+			if ns > 0 && (nf == 0 || rng.Intn(2) == 0) {
+				request(slow(), okCode())
+				ns--
+			} else {
+				request(fast(), okCode())
+				nf--
+			}
+		}
+		tick(start + 10*second + rng.Int63n(1500*ms) - elapsed)
+	}
+	// the trip
+	if gated {
+		for i := 0; i < 4+rng.Intn(3); i++ {
+			l := fast()
+			if i == 0 || rng.Intn(3) == 0 {
+				l = slow()
+			}
+			request(l, errCode())
+		}
+	} else {
+		for i := 0; i < 3+rng.Intn(2); i++ {
+			request(slow(), okCode())
+		}
+	}
+	// through fallback and recovery
+	h.Ops = append(h.Ops, []int64{0, 2})
+	tick(fb)
+	h.Ops = append(h.Ops, []int64{0, 2}) // starts the recovery
+	if rng.Intn(2) == 0 {
+		tick(recD / 2)
+		h.Ops = append(h.Ops, []int64{0, 2}, []int64{0, 2}, []int64{0, 2})
+		tick(recD - recD/2 + 1)
+	} else {
+		tick(recD + 1)
+	}
+	// back in standby: fast responses, every one a due check
+	for i := 0; i < 3+rng.Intn(4); i++ {
+		code := okCode()
+		if gated {
+			code = errCode()
+		}
+		request(fast(), code)
+		tick(cp + 1 + rng.Int63n(50*ms))
+	}
+	return h
+}
+
 func (c *cbComp) Gen(rng *rand.Rand, idx int, tier string, targeted bool) hlib.History {
+	if (targeted && rng.Intn(2) == 0) || (!targeted && rng.Intn(4) == 0) {
+		return genStale(rng)
+	}
 	var h hlib.History
 	t0 := int64(1600000000)*second + rng.Int63n(20*second)
 	if rng.Intn(4) == 0 {
